@@ -8,6 +8,7 @@ import (
 	"encoding/json"
 	"fmt"
 	"os"
+	"runtime"
 )
 
 // ---- native replay state
@@ -127,10 +128,41 @@ func IteU32(c bool, a, b uint32) uint32 {
 // nondeterministic choice. Natively the runtime's own order is used.
 func MapOrderNondet(on bool) {}
 
-// AllocBound: under the engine every make() size must be provably <= n.
-func AllocBound(n int) {}
+// AllocBound: under the engine every make() size must be provably <= n (elements).
+// Natively the bytes allocated between AllocBound and AllocCheck are measured; more than
+// 512 KiB for the few input bytes of a harness counts as the same violation.
+func AllocBound(n int) {
+	var ms runtime.MemStats
+	runtime.ReadMemStats(&ms)
+	allocStart, allocOn = ms.TotalAlloc, true
+}
+
+func AllocCheck() {
+	if !allocOn {
+		return
+	}
+	allocOn = false
+	var ms runtime.MemStats
+	runtime.ReadMemStats(&ms)
+	if ms.TotalAlloc-allocStart > 512<<10 {
+		panic(AssertFailed{"alloc-bound"})
+	}
+}
+
+var (
+	allocStart uint64
+	allocOn    bool
+)
 
 func Concretize(v int) int { return v }
+
+// Param picks a bound by tier (VERIF_TIER=thorough selects the second value).
+func Param(name string, quick, thorough int) int {
+	if os.Getenv("VERIF_TIER") == "thorough" {
+		return thorough
+	}
+	return quick
+}
 func IsSymbolic() bool      { return false }
 
 func Unsupported(msg string) { panic("verifrt.Unsupported: " + msg) }
